@@ -252,6 +252,7 @@ func (m c13Method) Commit(ctx context.Context, e orm.DIDChangeLog) error {
 // c13Net is the scripted network.Transactions: an in-memory DAG whose new transactions are really signed and handed to
 // the real ambassador.
 type c13Net struct {
+	mu       sync.Mutex
 	s        *c13Script
 	signer   nutsCrypto.JWTSigner
 	amb      didnuts.Ambassador
@@ -279,15 +280,19 @@ func (n *c13Net) CreateTransaction(ctx context.Context, tpl network.Template) (d
 	case "pub_fail", "pub_fail_tx2_fail":
 		return nil, errC13Publish
 	}
-	// as network.CreateTransaction: additional prevs must be known, prevs = head + additional, clock = max+1
+	// as network.CreateTransaction: additional prevs must be known, prevs = head + additional, clock = max+1.
+	// n.mu only guards the in-memory DAG (never held while signing: signing needs the single SQL connection).
 	var prevs []hash.SHA256Hash
+	n.mu.Lock()
 	if n.count > 0 {
 		prevs = append(prevs, n.head)
 	} else if len(tpl.AdditionalPrevs) != 0 {
+		n.mu.Unlock()
 		return nil, errors.New("cannot have previous transactions on root transaction")
 	}
 	for _, p := range tpl.AdditionalPrevs {
 		if _, ok := n.txs[p]; !ok {
+			n.mu.Unlock()
 			return nil, fmt.Errorf("additional prev is unknown or missing payload (prev=%s)", p)
 		}
 	}
@@ -298,6 +303,7 @@ func (n *c13Net) CreateTransaction(ctx context.Context, tpl network.Template) (d
 			clock = c
 		}
 	}
+	n.mu.Unlock()
 	unsigned, err := dag.NewTransaction(hash.SHA256Sum(tpl.Payload), tpl.Type, prevs, nil, clock)
 	if err != nil {
 		return nil, fmt.Errorf("unable to create new transaction: %w", err)
@@ -310,12 +316,16 @@ func (n *c13Net) CreateTransaction(ctx context.Context, tpl network.Template) (d
 	if err != nil {
 		return nil, fmt.Errorf("unable to sign newly created transaction: %w", err)
 	}
+	n.mu.Lock()
 	n.txs[tx.Ref()] = tx
 	n.head = tx.Ref()
 	n.count++
+	n.mu.Unlock()
 	// the DAG notifies the ambassador synchronously; a rejected document does not undo the transaction
 	if err := didnuts.VerifC13Deliver(n.amb, tx, tpl.Payload); err != nil {
+		n.mu.Lock()
 		n.deliverE = append(n.deliverE, err.Error())
+		n.mu.Unlock()
 	} else {
 		s.mu.Lock()
 		s.published = true
@@ -336,6 +346,8 @@ func (n *c13Net) GetTransactionPayload(hash.SHA256Hash) ([]byte, error) {
 	return nil, dag.ErrPayloadNotFound
 }
 func (n *c13Net) GetTransaction(r hash.SHA256Hash) (dag.Transaction, error) {
+	n.mu.Lock()
+	defer n.mu.Unlock()
 	if tx, ok := n.txs[r]; ok {
 		return tx, nil
 	}
